@@ -210,6 +210,7 @@ fn run_subject(kind: &str, c: usize, r: usize, mutable: bool, ctx: &mut Ctx) {
                 let base = root.data().as_ptr() as usize;
                 let ideal: Vec<Tok> = (0..r).map(|y| (base + ((abs.1 + y) * pc + abs.0) * 4, c)).collect();
                 cs.traces = 1;
+                cs.outcome(if term == Term::None { "calls-only" } else { "closed-by-terminal" });
                 if r > 0 {
                     cs.nontrivial((kind, c, r, mutable, &seq, term));
                 }
